@@ -82,7 +82,7 @@ static std::string run_case(int K, const std::vector<std::string>& ops) {
 			auto it = std::next(cur.equal_range(k).first, (ptrdiff_t)i);
 			if (it->first.id != k) oracle_fail("equal_range iterator leaves the key");
 			i64 v = it->second;
-			cur.erase(it);
+			if (i % 2) cur.erase(it); else { typename UM::const_iterator cit = it; cur.erase(cit); }
 			if (!erase_one(tc, k, v)) oracle_fail("erase(pos): value not in twin");
 			ret << "ok"; break; }
 		case 'q': {
@@ -111,7 +111,25 @@ static std::string run_case(int K, const std::vector<std::string>& ops) {
 			if (n != tn) oracle_fail("erase_if: returned count");
 			ret << "n" << n; break; }
 		case 'c': cur.clear(); tc.clear(); ret << "ok"; break;
-		case 'y': oth = cur; to = tc; ret << "ok"; break;
+		case 'n': {   // insert(first, last) / insert(initializer_list): pairs k,v,k,v,...
+			std::vector<std::pair<KeyT, i64>> ps;
+			for (size_t q = 0; q + 1 < a.size(); q += 2) ps.push_back({KeyT((int)a[q], 0), a[q + 1]});
+			if (ps.size() == 2 && a[1] % 2 == 0) cur.insert({ {ps[0].first, ps[0].second}, {ps[1].first, ps[1].second} });
+			else cur.insert(ps.begin(), ps.end());
+			// momo keeps ONE key object per equivalence class (the first one, even while it is value-less): the twin adopts
+			// the stored identity; the identity itself is printed (er=k/tag:...) and compared with the model
+			for (auto& p : ps) { auto sf = cur.find(p.first); if (sf == cur.end()) { oracle_fail("insert(range): key not found"); break; } tc.insert({KeyT(p.first.id, sf->first.tag), p.second}); }
+			ret << "ok"; break; }
+		case 'h': {   // emplace_hint(hint, key, value)
+			auto it = cur.emplace_hint(cur.begin(), KeyT((int)a[0], 0), a[1]);
+			if (it->first.id != (int)a[0] || it->second != a[1]) oracle_fail("emplace_hint: returned iterator");
+			auto tf = tc.find(KeyT((int)a[0], 0));
+			if (tf != tc.end() && tf->first.tag != it->first.tag) oracle_fail("emplace_hint: identity of the stored key changed");
+			tc.insert({KeyT((int)a[0], it->first.tag), a[1]}); ret << "ok"; break; }
+		case 'm': {   // move assignment / move construction; the moved-from wrapper is re-created by assignment
+			if (a.empty() || a[0] % 2 == 0) cur = std::move(oth); else { UM tmp(std::move(oth)); cur.swap(tmp); }
+			oth = UM(); tc = to; to.clear(); ret << "ok"; break; }
+		case 'y': if (a.empty() || a[0] % 2 == 0) oth = cur; else { UM tmp(cur); oth = std::move(tmp); } to = tc; ret << "ok"; break;
 		case 'Y': cur = oth; tc = to; ret << "ok"; break;
 		case 's': if (a.empty() || a[0] % 2 == 0) cur.swap(oth); else swap(cur, oth); std::swap(tc, to); ret << "ok"; break;
 		default: ret << "?"; break;
@@ -129,13 +147,13 @@ static std::string run_case(int K, const std::vector<std::string>& ops) {
 		line << " er=";
 		for (int k = 0; k < K; ++k) {
 			auto er = cur.equal_range(k);
-			std::vector<i64> vs; for (auto it = er.first; it != er.second; ++it) { if (it->first.id != k) oracle_fail("equal_range: foreign key"); vs.push_back(it->second); }
+			std::vector<i64> vs; int idn = 0; for (auto it = er.first; it != er.second; ++it) { if (it->first.id != k) oracle_fail("equal_range: foreign key"); idn = it->first.tag; vs.push_back(it->second); }
 			std::sort(vs.begin(), vs.end());
 			auto ter = tc.equal_range(k);
 			std::vector<i64> tv; for (auto it = ter.first; it != ter.second; ++it) tv.push_back(it->second);
 			std::sort(tv.begin(), tv.end());
 			if (vs != tv) oracle_fail("equal_range(k) as multiset");
-			if (!vs.empty()) { line << k << ":"; for (size_t i = 0; i < vs.size(); ++i) line << (i ? "," : "") << vs[i]; line << ";"; }
+			if (!vs.empty()) { line << k << "/" << idn << ":"; for (size_t i = 0; i < vs.size(); ++i) line << (i ? "," : "") << vs[i]; line << ";"; }
 		}
 		{ // whole iteration as multiset
 			std::vector<std::pair<KeyT, i64>> p1, p2;
